@@ -61,6 +61,12 @@ impl TopicName {
         &*self.project_id == project_id
     }
 
+    /// Returns the project ID, for the verification harness.
+    #[cfg(deltio_verif)]
+    pub fn verif_project_id(&self) -> &str {
+        &self.project_id
+    }
+
     /// Returns the topic ID.
     pub fn topic_id(&self) -> &str {
         &self.topic_id
